@@ -23,11 +23,13 @@ Record deviations := mkDev {
   d_service_no_cbrec : bool;    (* D20: service tasks are created without ast_ctx: no task2cb record *)
   d_fin_cancel_escapes : bool;  (* D140: a cancellation that strikes while a done-callback is suspended leaves the
                                    [finally] at once: later callbacks and the whole registry cleanup are skipped *)
-  d_live_iter : bool            (* D141: the callback loop iterates the live dict: add/remove during a suspended
+  d_live_iter : bool;           (* D141: the callback loop iterates the live dict: add/remove during a suspended
                                    callback raises RuntimeError out of run_coro (cleanup skipped) *)
+  d_call_cancel_kills : bool    (* D142: the @service handler awaits the service task unprotected: when the service run is
+                                   cancelled, a run blocked in service.call(..., blocking=True) on it gets CancelledError too *)
 }.
-Definition no_dev := mkDev false false false false.
-Definition all_dev := mkDev true true true true.
+Definition no_dev := mkDev false false false false false.
+Definition all_dev := mkDev true true true true true.
 
 Inductive kind := KTrig | KSvc | KCreate.        (* started by a trigger / a service call / task.create *)
 Inductive outcome := ORet (v : option N) | ORaise | OCancel | OEscape.
@@ -183,7 +185,10 @@ Inductive label :=
   | LCbEnd (t : tid) (r : cbres)            (* that callback returns / raises / is cancelled while suspended *)
   | LExit (t : tid)                         (* the loop is over: registry cleanup, the asyncio task is done *)
   | LReaper                                 (* task_reaper: cmd = await q.get(); cmd[1].cancel(); await cmd[1] ... *)
-  | LReaperWake.                            (* ... the awaited task is done *)
+  | LReaperWake                             (* ... the awaited task is done *)
+  | LPropCancel (t x : tid)                 (* asyncio: Task.cancel() of t, which awaits task x inside a blocking
+                                               service.call, cancels x; t itself gets CancelledError once x is done *)
+  | LCallKilled (t x : tid).                (* t was blocked in service.call on service run x; x ended cancelled *)
 
 Definition step (cfg : deviations) (s : state) (l : label) : option state :=
   match l with
@@ -322,6 +327,31 @@ Definition step (cfg : deviations) (s : state) (l : label) : option state :=
       | Some x => if is_done s x then Some (set_rbusy s None) else None
       | None => None
       end
+  | LPropCancel t x =>
+      let rt := st_task s t in
+      match tr_phase rt with
+      | PBody =>
+          if tr_creq rt && negb (N.eqb t x) then
+            let r := st_task s x in
+            match tr_phase r with
+            | PDone | PNone => Some s
+            | PCreated =>                                         (* cancelled before its first step: run_coro never runs *)
+                match tr_kind r, st_cb s x with                     (* only a service run can be awaited this way *)
+                | KSvc, None => Some (set_task s x (mkT KSvc PDone false (tr_ncancel r) None (Some OCancel) (tr_snap r)))
+                | _, _ => Some s
+                end
+            | _ => Some (set_task s x (set_creq r true))
+            end
+          else None
+      | _ => None
+      end
+  | LCallKilled t x =>
+      if running s t && d_call_cancel_kills cfg then
+        match phase_of s x, tr_final (st_task s x) with
+        | PDone, Some OCancel => Some (end_body s t OCancel)
+        | _, _ => None
+        end
+      else None
   end.
 
 Definition run_from (cfg : deviations) (s : state) (ls : list label) : option state := fold_left_opt (step cfg) ls s.
@@ -340,5 +370,6 @@ Definition owner (l : label) : option tid :=
   match l with
   | LCreate t _ | LStart t | LAdd t _ _ _ | LRem t _ _ | LClaim t _ | LEnd t _ | LCbBegin t | LCbEnd t _ | LExit t => Some t
   | LCancel src _ => src
-  | LReaper | LReaperWake => None
+  | LCallKilled t _ => Some t
+  | LReaper | LReaperWake | LPropCancel _ _ => None
   end.
